@@ -22,7 +22,7 @@ from fractions import Fraction
 from ..affine import Lin
 from ..facts import abs_range, atoms, call_is, cut_normalise, equality_atoms, meth_is, strip, simplify
 from ..intervals import iv_of
-from ..model import AnalysisError
+from ..model import AnalysisError, norm
 from ..seq import Byte, Const, Digest, Field, Layouts, Opaque, Zeros, explode, pad16, show_layout, total
 from ..terms import is_const, show, subterms, summarize
 
@@ -88,6 +88,28 @@ def run(ctx):
     if not sign_ok:
         return          # (the layout of encode is stated in terms of sign)
 
+    # C02.e (history) the codec is stateless: its classes are used through classmethods only, so anything one of them stores on the class (an
+    # output buffer "reused between encryptions", a memo of earlier packets) is shared by every packet of the process - bytes of an earlier,
+    # longer frame reappear behind a later, shorter one
+    class_stores = []
+    for cq in (SEC, "msmart.lan._Packet"):
+        k_ = prog.classes.get(cq)
+        if k_ is None:
+            continue
+        for m_ in k_.methods.values():
+            recv_ = {m_.params[0]} if m_.params and m_.kind in ("classmethod", "method") else set()
+            for n_ in ast.walk(m_.node):
+                tg_ = n_.targets if isinstance(n_, (ast.Assign, ast.Delete)) else ([n_.target] if isinstance(n_, (ast.AugAssign, ast.AnnAssign)) else [])
+                for t_ in tg_:
+                    b_ = t_.value if isinstance(t_, ast.Subscript) else t_
+                    if isinstance(b_, ast.Attribute) and isinstance(b_.value, ast.Name) and (b_.value.id in recv_ or b_.value.id == k_.name):
+                        class_stores.append((m_, n_))
+    ctx.ob("C02.e", SEC, not class_stores, "the codec classes store nothing on themselves (every packet is computed from its arguments and the constants alone)",
+           func=class_stores[0][0].qual if class_stores else SEC, file=file, node=class_stores[0][1] if class_stores else None,
+           fail=(f"{class_stores[0][0].qual} stores state on the class (`{norm(class_stores[0][1])[:60]}`): what one packet leaves there is part of the next one "
+                 "(a longer earlier frame's ciphertext behind a shorter later one)") if class_stores else "")
+    if class_stores:
+        return
     s = summarize(prog, enc)
     rets = [(pc, t, n) for pc, t, n, _ in s.returns if n is not None]
     ctx.ob("C02.e", ENC, len(rets) == 1 and not rets[0][0], "encode has a single unconditional return (no length-dependent branch)",
